@@ -16,7 +16,8 @@ LANGS = ['typescript', 'kotlin', 'swift', 'scala', 'go', 'python']
 PREFIXES = ['', 'OP', 'X_']
 # Go acronym lists: lower case, UPPER case and Mixed case spellings (go.rs:582 searches the PascalCase form: id, Id and ID all
 # give Id), a non-idempotent triple, and `id` again so that the generic parameter TId of c09_gen is rewritten at its uses
-ACRONYMS = [[], [], ['id', 'api'], ['ID', 'url', 'HTTP'], ['xy', 'yZw', 'wQr'], ['Id', 'Api', 'http'], ['id']]
+ACRONYMS = [[], [], ['id', 'api'], ['ID', 'url', 'HTTP'], ['xy', 'yZw', 'wQr'], ['Id', 'Api', 'http'], ['id'],
+            ['no', 'it', 'co', 'id']]      # occurrences followed by a lower-case letter (Node, Item, Config, Color) must stay: go.rs:588
 EXT = {'typescript': 'ts', 'kotlin': 'kt', 'swift': 'swift', 'scala': 'scala', 'go': 'go', 'python': 'py'}
 
 
@@ -302,7 +303,7 @@ def run(chk):
                 'as generic arguments (nested to depth 2), forward, backward and recursive; a third of the programs without serde(rename), a third with '
                 'every subset member renamed at random, small programs with ALL subsets enumerated; prefixes "", "OP", "X_" (Kotlin, Swift); in 3/7 of '
                 'the programs most item names of every kind begin with a prefix setting or a proper prefix of one (OPEvent, OEvent, X_Node, XNode), half of '
-                'those generated under that very prefix; Go acronym lists [], [id, api], [ID, url, HTTP], [xy, yZw, wQr], [Id, Api, http], [id] (lower, upper and mixed case spellings; '
+                'those generated under that very prefix; Go acronym lists [], [id, api], [ID, url, HTTP], [xy, yZw, wQr], [Id, Api, http], [id], [no, it, co, id] (lower, upper and mixed case spellings; occurrences followed by a lower-case letter; '
                 'a quarter of the generic structs have the parameter TId, which `id` rewrites at its uses); 6 languages. non-trivial = distinct (program, language, configuration) inside dom_C09 with '
                 'known_C09 = None and at least one reference to a generated type')
     chk.assumptions = ['syn is not modelled: the model receives the AST produced by harness/libdrive/src/ast.rs from the same text',
